@@ -22,6 +22,7 @@ import (
 	"fmt"
 	"math"
 	"sync/atomic"
+	"testing/fstest"
 	"time"
 
 	"github.com/luthersystems/elps/lisp"
@@ -241,7 +242,10 @@ func c15GenSleepCfg(r *fw.RNG) (c15SleepCfg, c15Expect) {
 		c.Ctx = fw.Pick(r, c15CtxKinds)
 		c.Route = "-"
 		if c.Ctx != "none" {
-			c.Route = fw.Pick(r, []string{"load", "load", "config"})
+			// how the context reaches the sleep: the *Context entry point of a string load,
+			// the documented embedder option, a FILE loaded through the source library by
+			// the host, or a file loaded by (load-file) from inside a let
+			c.Route = fw.Pick(r, []string{"load", "load", "config", "file", "nested-file"})
 		}
 		switch c.Ctx {
 		case "deadline", "deadline-nodone":
@@ -358,6 +362,12 @@ func c15RunSleep(st *c15State, c c15SleepCfg, bound time.Duration) c15SleepRun {
 		var v *lisp.LVal
 		if ctx != nil && c.Route == "load" {
 			v = r.Env.LoadStringContext(ctx, "c15-sleep", src)
+		} else if ctx != nil && c.Route == "file" {
+			r.Env.Runtime.Library = &lisp.FSLibrary{FS: fstest.MapFS{"c15/sleep.lisp": {Data: []byte(src)}}}
+			v = r.Env.LoadFileContext(ctx, "c15/sleep.lisp")
+		} else if ctx != nil && c.Route == "nested-file" {
+			r.Env.Runtime.Library = &lisp.FSLibrary{FS: fstest.MapFS{"c15/sleep.lisp": {Data: []byte(src)}}}
+			v = r.Env.LoadStringContext(ctx, "c15-outer", "(let ((x 1)) (load-file \"c15/sleep.lisp\"))")
 		} else {
 			v = r.Env.LoadString("c15-sleep", src)
 		}
